@@ -1,11 +1,20 @@
 #!/bin/bash
-# tools/try_mutant.sh <seeded dir> <check id> [tier]  — apply a seeded change to /repo, run one check, undo.
+# tools/try_mutant.sh <seeded dir> <check id> [tier]
+# Runs one check against a seeded change WITHOUT touching /repo: the change is applied to a scratch
+# worktree of /repo's HEAD (/tmp/mut/repo) and a copy of the engine pointing at it is built in its own
+# target dir; evidence/replays of that run go to /tmp/mut/out. (The registered checks themselves always
+# build from /repo; `tools/try_mutant_inplace.sh` applies a change to /repo itself.)
 D="$(realpath "$1")"; ID="$2"; TIER="${3:-quick}"
-cd /verif; P="$D/patch.diff"; [ -f "$D/patch.rebased.diff" ] && P="$D/patch.rebased.diff"
-git -C /repo apply "$P" 2>/tmp/apply.err || { echo "APPLY-FAILED $D: $(cat /tmp/apply.err | head -3)"; git -C /repo checkout -- . ; exit 3; }
-out=$(./run "$ID" "$TIER" 2>&1); rc=$?
-git -C /repo checkout -- .
-git -C /repo reset -q 2>/dev/null
+P="$D/patch.diff"; [ -f "$D/patch.rebased.diff" ] && P="$D/patch.rebased.diff"
+mkdir -p /tmp/mut/out
+if [ ! -d /tmp/mut/repo ]; then git -C /repo worktree add -q --detach /tmp/mut/repo HEAD || exit 3; fi
+git -C /tmp/mut/repo checkout -q -f --detach "$(git -C /repo rev-parse HEAD)" && git -C /tmp/mut/repo clean -q -fd -e target
+git -C /tmp/mut/repo apply "$P" 2>/tmp/mut/apply.err || { echo "$(basename $D) APPLY-FAILED: $(head -2 /tmp/mut/apply.err | tr '\n' ' ')"; exit 3; }
+rm -rf /tmp/mut/engine && mkdir -p /tmp/mut/engine && cp -r /verif/engine/. /tmp/mut/engine/ && rm -rf /tmp/mut/engine/target
+sed -i 's|path = "/repo/fpdec-core"|path = "/tmp/mut/repo/fpdec-core"|; s|path = "/repo"|path = "/tmp/mut/repo"|' /tmp/mut/engine/fpmc/Cargo.toml
+( cd /tmp/mut/engine && CARGO_NET_OFFLINE=true CARGO_TARGET_DIR=/tmp/mut/target RUSTFLAGS="--cfg fpdec_verif" cargo build --release --offline ) >/tmp/mut/build.log 2>&1 || { echo "$(basename $D) BUILD-FAILED"; tail -5 /tmp/mut/build.log; exit 2; }
+out=$(VERIF_OUT=/tmp/mut/out /tmp/mut/target/release/fpmc "$ID" "$TIER" 2>&1); rc=$?
+git -C /tmp/mut/repo checkout -q -f -- .
 nvio=$(echo "$out" | grep -c '^VIOLATION')
-echo "$(basename $D) check=$ID tier=$TIER exit=$rc violations_lines=$nvio"
-echo "$out" | grep -A2 '^VIOLATION' | head -12
+echo "$(basename $D) check=$ID tier=$TIER exit=$rc violation_lines=$nvio"
+echo "$out" | grep -A2 '^VIOLATION' | head -9
